@@ -448,7 +448,18 @@ func canonicalise(info *types.Info, f *ast.File) {
 		default:
 			return true
 		}
-		be.X, be.Y = be.Y, be.X
+		// keep the node's extent: the operands change places inside parentheses that carry the
+		// positions of the places they move to (Pos()/End() of the comparison stay what they were)
+		ox, oy := be.X, be.Y
+		nx := &ast.ParenExpr{Lparen: ox.Pos(), X: oy, Rparen: ox.End() - 1}
+		ny := &ast.ParenExpr{Lparen: oy.Pos(), X: ox, Rparen: oy.End() - 1}
+		if tv, ok := info.Types[oy]; ok {
+			info.Types[nx] = tv
+		}
+		if tv, ok := info.Types[ox]; ok {
+			info.Types[ny] = tv
+		}
+		be.X, be.Y = nx, ny
 		return true
 	})
 }
